@@ -1428,7 +1428,7 @@ fn check_formula(case: &str, f: &F, src: &str) -> Option<Fail> {
     None
 }
 
-const CORNER: [&str; 40] = [
+const CORNER: [&str; 50] = [
     "mu X # ((a | (nu X # (X & b))) | X)",
     "nu X # ((mu X # (X | a)) & X)",
     "(lfp X # ((gfp X # (X & a)) | (X & b))) | c",
@@ -1469,6 +1469,17 @@ const CORNER: [&str; 40] = [
     "a nand b nor c",
     "[a, b, c,] >= 2",
     "exists # a",
+    // the bound name of a fixed point inside operand lists, on either side, where the comparison is monotone in it
+    "lfp X # ([a] <= [X, b])",
+    "mu X # (a | ([b] <= [X]))",
+    "nu X # ([b, c] < [X, a, c])",
+    "gfp X # ([X, a] >= [b])",
+    "lfp X # ([a, X, b] > [c])",
+    "lfp X # (b | ([X, a] >= 2))",
+    "gfp X # ([a, b] <= [b, (X & c)])",
+    "mu X # ([a] <= [b, (nu Y # (Y & (X | c)))])",
+    "lfp X # (exists b # ([a, b] <= [X, c]))",
+    "nu X # ([c] <= [(all a # (X | a)), b])",
 ];
 
 /// case: a formula text (corner cases are parsed by the reference parser to obtain their meaning)
